@@ -18,9 +18,11 @@ def parseAct (x : String) : Option Act :=
   match x.splitOn ":" with
   | ["enter", ch, kind, lock] =>
     -- kind: n = one sleep per iteration, c = the start_consuming loop (sleeps regenerated from the source)
+    -- g = a consuming loop with one sleep per iteration (build_inbound_messages, a process_data_events loop)
     let extra := if kind = "c" then Gen.Transport.consumeLoopSleeps - 1 else 0
+    let cons := kind = "c" || kind = "g"
     let lk := lock = "1"
-    if ch = "conn" then some (.enterWait none extra lk) else ch.toNat?.map fun c => .enterWait (some c) extra lk
+    if ch = "conn" then some (.enterWait none extra lk cons) else ch.toNat?.map fun c => .enterWait (some c) extra lk cons
   | ["stuck", i] => i.toNat?.map .stuck
   | ["return", ch, code] => do let c ← ch.toNat?; let k ← code.toNat?; pure (.brokerReturn c k)
   | ["die"] => some .die
